@@ -1,11 +1,15 @@
 import MpVerif.C12.Model
+import MpVerif.Gen.ObjFilter
 /-! Line driver for C12.  One case per line:
 
   `R <n> <numCons> <nops> {o <int> | m <int>}* <nsegs> {O <idx> <0|1> <nl> | G <idx> <cnt> {<var> <coef>}* | X}*`
 
 Output: `err <kind>` or
   `ok echo=<int> names=<i,i,..> nobj=<k> | <min|max> nl=<tok> lin=<v:c,v:c,..> | ...`
-No logic here: parsing + calls of `readNL`, `delivered`, `solObjnoLine`, `objRowIdx`. -/
+No logic here: parsing + calls of `readNL`, `delivered`, `solObjnoLine`, `objRowIdx`.
+
+  `F <name> <int>*` evaluates the definition `<name>` of the *generated* module `MpVerif.Gen.ObjFilter`
+  (arguments in the order of the generated signature) and prints `ret n` / `throw` / `ub`. -/
 open MpVerif.C12
 
 def parseOps : Nat → List String → Option (List OptOp × List String)
@@ -58,8 +62,15 @@ def showObj (o : Obj) : String :=
   (if o.isMax then "max" else "min") ++ " nl=" ++ toString o.nl ++ " lin=" ++
     ",".intercalate (o.lin.map fun (v, c) => toString v ++ ":" ++ toString c)
 
+def runGen (name : String) (args : List String) : Option String := do
+  let (_, ar, f) ← MpVerif.Gen.ObjFilter.table.find? (fun e => e.1 == name)
+  let xs ← args.mapM (·.toInt?)
+  if xs.length ≠ ar then none
+  pure (f xs).toStr
+
 def runLine (toks : List String) : Option String := do
   match toks with
+  | "F" :: name :: args => runGen name args
   | "R" :: n :: nc :: nops :: rest =>
     let n ← n.toNat?
     let nc ← nc.toNat?
